@@ -167,6 +167,18 @@ CHECKS = {
             "completing ACK is outside the explored behaviours; synchronous injection via hook VerifInject.",
             "TLA+ spec + TLC generation of client behaviours, injection into the real listener, TLC trace validation of emitted frames",
             "DESIGN.md §3 C14"),
+    "C13": ("model_checking",
+            "Ja3.tla defines the JA3 string of a hello record (decimal version, ciphers, extension types, groups, point formats in wire "
+            "order, GREASE removed from the first three) and TLC checks GreaseInvariant and OrderSensitive on every generated hello; "
+            "hellos are generated exhaustively over a small space and by simulation up to 40 ciphers / 20 extensions (unknown, repeated, "
+            "GREASE types, empty bodies, groups with GREASE, 0..3 point formats, with/without SNI, versions SSL3..TLS1.2), serialised by the "
+            "harness (30% fragmented over several TLS records), sent to the real https service through the real server, and the digest and "
+            "server name recorded in the connection's event must be MD5 of the specification's string and the SNI; one complete handshake "
+            "with crypto/tls must yield a request event with the digest of the hello captured on the wire.",
+            "MD5 by hashlib; the harness's serialiser/parser and own JA3 are cross-checked against Ja3.tla on every hello; extension "
+            "bodies are well-formed for types the library parses.",
+            "TLA+ spec as reference + TLC generation, replay into the real https service",
+            "DESIGN.md §3 C13"),
 }
 
 NOT_YET = "check not built yet in this session (see DESIGN.md §10 for the order of construction)"
